@@ -227,7 +227,7 @@ func visitInline(fw *formatWriter, source []byte, cursor *commonmark.Cursor) boo
 				s = s[n:]
 				continue
 			}
-			if strings.ContainsRune(`\[]*_-=<>&#~`+"`", r) {
+			if strings.ContainsRune(`\[]*_-+=<>&#~`+"`", r) {
 				fw.s(`\`)
 			}
 			fw.b(s[:n])
